@@ -472,8 +472,8 @@ def StoppingLogic (c : Config α) (status : Status) (st : State α) : Prop :=
     (st.numIter = 0 ∧ st.defCur = st.defInit ∧ (st.defInit < c.tolAbsLow ∨ st.defInit ≤ c.eps2)) ∨
     (0 < st.numIter ∧ st.defCur ≤ c.tolAbs ∧ (st.defCur ≤ c.tolRel * st.defInit ∨ st.defCur ≤ c.tolAbsLow) ∧
       ¬ Diverged c st.defInit st.defCur ∧ c.minIter ≤ st.numIter)) ∧
-  (status = .maxIter → st.numIter = max 1 (max c.minIter c.maxIter) ∧ ¬ Converged c st.defInit st.defCur ∧
-    ¬ Diverged c st.defInit st.defCur) ∧
+  (status = .maxIter → st.numIter = max 1 (max c.minIter c.maxIter) ∧
+    (¬ Converged c st.defInit st.defCur ∨ calcDef c st.numIter = false) ∧ ¬ Diverged c st.defInit st.defCur) ∧
   (status = .diverged → 0 < st.numIter ∧ (c.divAbs < st.defCur ∨ c.divRel * st.defInit < st.defCur)) ∧
   (status = .aborted → st.curFin = false) ∧
   (status = .stagnated → 0 < c.minStag ∧ c.minStag ≤ st.numStag ∧ c.stagRate * st.defPrev ≤ st.defCur ∧
@@ -526,32 +526,52 @@ theorem isRun_facts (c : Config α) (prev st : State α) (status : Status) (h : 
       have hnum := feed_numIter_le c false ds s0 _ status (Or.inr h0) hl
       rw [hfin] at hstep hnum
       simp only at hstep hnum
-      obtain ⟨s2, he, _, _, _, _⟩ := ctlStep_eq c false sa fa da
-      rw [he] at hstep
-      obtain ⟨f1, f2, f3, f4, f5⟩ := analyse_frame c _ _ _ _ hstep
-      have hsp := analyse_spec c _ _ _ _ hstep
+      obtain ⟨s2, stRaw, hana, hn2, _, _, _, hcase⟩ := ctlStep_eq c false sa st fa da status hstep
+      obtain ⟨f1, f2, f3, f4, f5⟩ := analyse_frame c _ _ _ _ hana
+      have hsp := analyse_spec c _ _ _ _ hana
       rw [← f1, ← f2, ← f3, ← f4, ← f5] at hsp
       obtain ⟨ha, hd, hsuc, hm, hstag, _, hund⟩ := hsp
-      refine ⟨hund, ?_, ?_, ?_, ?_, ?_⟩
-      · intro e
-        have := hsuc.1 e
-        exact Or.inr ⟨hnum.2, this.2.2.2.1, this.2.2.2.2, this.2.1, this.2.2.1⟩
-      · intro e
-        have := hm.1 e
-        refine ⟨?_, this.2.2.2.1, this.2.1⟩
-        have h1 := this.2.2.1
-        have h2 := this.2.2.2.2
-        have h3 := hnum.1
-        have h4 := hnum.2
-        omega
-      · intro e
-        have := hd.1 e
-        exact ⟨hnum.2, this.2⟩
-      · intro e; exact ha.1 e
-      · intro e
-        have := hstag e
-        exact ⟨this.2.1, this.2.2.2.2.1, this.2.2.1, this.2.2.2.2.2.2.2.1, this.2.2.2.2.2.2.2.2,
-          this.2.2.2.2.2.2.1, this.2.2.2.2.2.1⟩
+      rcases hcase with hraw | ⟨hraw, hmx, _, hcf⟩
+      · subst hraw
+        refine ⟨hund, ?_, ?_, ?_, ?_, ?_⟩
+        · intro e
+          have := hsuc.1 e
+          exact Or.inr ⟨hnum.2, this.2.2.2.1, this.2.2.2.2, this.2.1, this.2.2.1⟩
+        · intro e
+          have := hm.1 e
+          refine ⟨?_, Or.inl this.2.2.2.1, this.2.1⟩
+          have h1 := this.2.2.1
+          have h2 := this.2.2.2.2
+          have h3 := hnum.1
+          have h4 := hnum.2
+          omega
+        · intro e
+          have := hd.1 e
+          exact ⟨hnum.2, this.2⟩
+        · intro e; exact ha.1 e
+        · intro e
+          have := hstag e
+          exact ⟨this.2.1, this.2.2.2.2.1, this.2.2.1, this.2.2.2.2.2.2.2.1, this.2.2.2.2.2.2.2.2,
+            this.2.2.2.2.2.2.1, this.2.2.2.2.2.1⟩
+      · -- `_analyse_defect` said `success` on a defect that was not computed: reported as `max_iter`
+        subst hmx
+        have hs := hsuc.1 hraw
+        have hmm : c.maxIter ≤ c.minIter := by
+          have := hcf
+          unfold calcDef at this
+          simp only [Bool.or_eq_false_iff, decide_eq_false_iff_not] at this
+          omega
+        refine ⟨by simp, ?_, ?_, ?_, ?_, ?_⟩
+        · intro e; cases e
+        · intro _
+          refine ⟨?_, Or.inr (by rw [f4, hn2]; exact hcf), hs.2.1⟩
+          have h1 := hs.2.2.1
+          have h3 := hnum.1
+          have h4 := hnum.2
+          omega
+        · intro e; cases e
+        · intro e; cases e
+        · intro e; cases e
 
 theorem halfCtl_facts (c : Config α) (res : Result V α) (h : HalfCtl c res) : StoppingLogic c res.status res.st := by
   obtain ⟨hpos, hcase⟩ := h
